@@ -554,6 +554,18 @@ func (x *Exec) loopCut(st *State, fr *Frame, li *loopInfo, back bool) bool {
 	}
 	ms := x.loopMods(fr, li)
 	x.applyMods(st, pre, ms, nil)
+	if rg := loopSeenRange(li); rg != nil {
+		if _, have := st.heaps[seenKey(fr, rg)]; have {
+			mt := rg.X.Type().Underlying().(*types.Map)
+			nm := x.C.freshName("seen")
+			x.C.decl(fmt.Sprintf("(declare-const %s (Array %s Bool))", nm, x.C.sortOf(mt.Key())))
+			st.heaps[seenKey(fr, rg)] = nm
+			cn := x.C.freshName("seencnt")
+			x.C.decl(fmt.Sprintf("(declare-const %s Int)", cn))
+			x.C.decl(fmt.Sprintf("(assert (>= %s 0))", cn))
+			st.heaps["cnt:"+seenKey(fr, rg)] = cn
+		}
+	}
 	// automatic invariant of range-over-slice loops: -1 <= rangeindex <= len-1
 	if li.riCell != nil && li.riLen != nil {
 		if rv, ok := st.cells[cellKey{fr.id, li.riCell}]; ok {
@@ -1552,8 +1564,30 @@ type closureInfo struct {
 
 func (x *Exec) doRange(st *State, fr *Frame, n *ssa.Range) Val {
 	v := x.val(st, fr, n.X)
+	if mt, ok := n.X.Type().Underlying().(*types.Map); ok {
+		// ghost set of the keys visited so far (Go: each key present throughout the loop is produced exactly once)
+		ks := x.C.sortOf(mt.Key())
+		st.heaps[seenKey(fr, n)] = fmt.Sprintf("((as const (Array %s Bool)) false)", ks)
+		st.heaps["cnt:"+seenKey(fr, n)] = "0"
+	}
 	return Val{T: n.Type(), Term: v.Term, Tup: []Val{v}}
 }
+
+// loopSeenRange: the map range whose Next sits in the head of this loop (a range-over-map loop), or nil
+func loopSeenRange(li *loopInfo) *ssa.Range {
+	for _, in := range li.head.Instrs {
+		if nx, ok := in.(*ssa.Next); ok {
+			if rg, ok := nx.Iter.(*ssa.Range); ok {
+				if _, ok := rg.X.Type().Underlying().(*types.Map); ok {
+					return rg
+				}
+			}
+		}
+	}
+	return nil
+}
+
+func seenKey(fr *Frame, n *ssa.Range) string { return fmt.Sprintf("seen:%d:%s", fr.id, n.Name()) }
 
 func (x *Exec) doNext(st *State, fr *Frame, n *ssa.Next) Val {
 	it := x.val(st, fr, n.Iter)
@@ -1573,6 +1607,30 @@ func (x *Exec) doNext(st *State, fr *Frame, n *ssa.Next) Val {
 	d := x.heap(st, dn, fmt.Sprintf("(Array Int (Array %s Bool))", x.C.sortOf(mt.Key())))
 	st.assume(fmt.Sprintf("(=> %s (select (select %s %s) %s))", okv.Term, d, m.Term, k.Term))
 	st.assume(fmt.Sprintf("(=> (= %s 0) (not %s))", m.Term, okv.Term))
+	if rg, ok := n.Iter.(*ssa.Range); ok {
+		sk := seenKey(fr, rg)
+		if seen, ok := st.heaps[sk]; ok {
+			ks := x.C.sortOf(mt.Key())
+			// a key is produced at most once
+			st.assume(fmt.Sprintf("(=> %s (not (select %s %s)))", okv.Term, seen, k.Term))
+			// the loop ends when every key has been produced -- only claimed when the loop does not write the map
+			if !x.loopWritesMap(fr, n, mt) {
+				st.assume(fmt.Sprintf("(=> (not %s) (forall ((qk %s)) (! (=> (select (select %s %s) qk) (select %s qk)) :pattern ((select %s qk)))))", okv.Term, ks, d, m.Term, seen, seen))
+			}
+			nm := x.C.freshName("seen")
+			st.def(fmt.Sprintf("(define-fun %s () (Array %s Bool) (ite %s (store %s %s true) %s))", nm, ks, okv.Term, seen, k.Term, seen))
+			st.heaps[sk] = nm
+			// the number of keys produced; when the loop ends without having written the map it is the map's length
+			cnt := st.heaps["cnt:"+sk]
+			if !x.loopWritesMap(fr, n, mt) {
+				st.assume(fmt.Sprintf("(=> (not %s) (= %s %s))", okv.Term, cnt, x.mapLen(st, mt, m.Term)))
+			}
+			cn := x.C.freshName("seencnt")
+			st.def(fmt.Sprintf("(define-fun %s () Int (ite %s (+ %s 1) %s))", cn, okv.Term, cnt, cnt))
+			st.heaps["cnt:"+sk] = cn
+			x.C.used["T-go: a range over a map that the loop does not modify produces every key exactly once"] = true
+		}
+	}
 	kv := k
 	if tup.At(1).Type() != nil && !isInvalid(tup.At(1).Type()) {
 		kv.T = tup.At(1).Type()
@@ -1586,6 +1644,21 @@ func (x *Exec) doNext(st *State, fr *Frame, n *ssa.Next) Val {
 func isInvalid(t types.Type) bool {
 	b, ok := t.(*types.Basic)
 	return ok && b.Kind() == types.Invalid
+}
+
+// loopWritesMap: does the loop that contains this Next store into (or delete from) a map of the iterated type?
+func (x *Exec) loopWritesMap(fr *Frame, n *ssa.Next, mt *types.Map) bool {
+	for _, li := range fr.loops {
+		if !li.body[n.Block()] && li.head != n.Block() {
+			continue
+		}
+		_, dn := x.C.mapHeapNames(mt)
+		ms := x.loopMods(fr, li)
+		if ms.all || ms.heaps[dn] {
+			return true
+		}
+	}
+	return false
 }
 
 // ---------------------------------------------------------------------------
@@ -1629,6 +1702,7 @@ func (x *Exec) mapLen(st *State, mt *types.Map, m string) string {
 	x.C.decl(fmt.Sprintf("(assert (forall ((d (Array %s Bool))) (! (>= (%s d) 0) :pattern ((%s d)))))", ks, f, f))
 	x.C.decl(fmt.Sprintf("(assert (forall ((d (Array %s Bool)) (k %s)) (! (=> (select d k) (> (%s d) 0)) :pattern ((%s d) (select d k)))))", ks, ks, f, f))
 	x.C.decl(fmt.Sprintf("(assert (= (%s ((as const (Array %s Bool)) false)) 0))", f, ks))
+	x.C.decl(fmt.Sprintf("(assert (forall ((d (Array %s Bool)) (k %s)) (! (= (%s (store d k true)) (ite (select d k) (%s d) (+ (%s d) 1))) :pattern ((%s (store d k true))))))", ks, ks, f, f, f, f))
 	return fmt.Sprintf("(%s (select %s %s))", f, dh, m)
 }
 
